@@ -662,6 +662,158 @@ def handleSrv (toks : List String) : String :=
     | none => "bad-op"
   | _ => "bad-op"
 
+def strHex (cs : List Char) : String := Bytes.toHexP (Bytes.ofString (String.ofList cs))
+
+/-- request text: hex of its UTF-8 bytes -/
+def parseText (h : String) : Option (List Char) :=
+  match Bytes.ofHex h with
+  | some bs => (String.fromUTF8? ⟨bs.toArray⟩).map String.toList
+  | none => none
+
+def splitPoints : Bytes → List Bytes
+  | [] => []
+  | b :: bs => (b :: bs).take 32 :: splitPoints ((b :: bs).drop 32)
+termination_by bs => bs.length
+decreasing_by simp; omega
+
+def parseBits (s : String) : Option Ggm.Bits :=
+  s.toList.mapM fun c => if c = '1' then some true else if c = '0' then some false else none
+
+def parseGgmDump (s : String) : Option (Ggm.Key Bytes) :=
+  match s.splitOn "#" with
+  | [a, b] =>
+    let pf : Option (List (Ggm.Bits × Bytes)) :=
+      if a = "" then some [] else (a.splitOn "|").mapM fun e =>
+        match e.splitOn ":" with
+        | [bits, seed] =>
+          match parseBits bits, Bytes.ofHex seed with
+          | some x, some y => some (x, y)
+          | _, _ => none
+        | _ => none
+    let pu : Option (List Ggm.Bits) := if b = "" then some [] else (b.splitOn "|").mapM parseBits
+    match pf, pu with
+    | some x, some y => some ⟨x, y⟩
+    | _, _ => none
+  | _ => none
+
+def showKeyState (ks : Codec.KeyState) : String :=
+  "ok " ++ sc ks.oprfKey ++ " " ++ Bytes.toHex ks.publicKey.toBincode ++ " "
+    ++ (if ks.prgs.isEmpty then "-" else hexs ks.prgs) ++ " " ++ ggmDump ks.ggm
+
+def handleCodec (toks : List String) : String :=
+  match toks with
+  | ["cd.ksser", key, pk, prgs, dump] =>
+    match parseScalar key, (Bytes.ofHex pk).bind Codec.pkDecode, parseHexList (if prgs = "-" then "" else prgs),
+        parseGgmDump dump with
+    | some key, some pk, some prgs, some ggm => "ok " ++ Bytes.toHexP (Codec.keyStateToBincode ⟨key, pk, prgs, ggm⟩)
+    | _, _, _, _ => "bad-op"
+  | ["cd.ksload", h] =>
+    match Bytes.ofHex h with
+    | some bs =>
+      match Codec.keyStateFromBincode bs with
+      | some ks => showKeyState ks
+      | none => "err"
+    | none => "bad-op"
+  | ["cd.b64enc", h] =>
+    match Bytes.ofHex h with
+    | some bs => "ok " ++ strHex (Base64.encodeChars bs)
+    | none => "bad-op"
+  | ["cd.b64dec", h] =>
+    match parseText h with
+    | some cs =>
+      match Base64.decodeChars cs with
+      | some bs => "ok " ++ Bytes.toHexP bs
+      | none => "err"
+    | none => "bad-op"
+  | ["cd.pkser", base, tags, points] =>
+    match Bytes.ofHex base, Bytes.ofHex tags, Bytes.ofHex points with
+    | some base, some tags, some points =>
+      let pk : Ppoprf.PublicKey := ⟨base, tags.zip (splitPoints points)⟩
+      "ok " ++ Bytes.toHexP pk.toBincode
+    | _, _, _ => "bad-op"
+  | ["cd.pkload", h] =>
+    match Bytes.ofHex h with
+    | some bs => showErrKind (fun pk => "ok " ++ Bytes.toHexP pk.toBincode) (Codec.pkFromBincode bs)
+    | none => "bad-op"
+  | ["cd.proofload", h] =>
+    match Bytes.ofHex h with
+    | some bs =>
+      showErrKind (fun p => "ok " ++ Bytes.toHexP (Ppoprf.proofToBincode p.1 p.2)) (Codec.proofFromBincodeFull bs)
+    | none => "bad-op"
+  | ["cd.ptjson", h] =>
+    match Bytes.ofHex h with
+    | some bs => "ok " ++ strHex (Codec.pointToJsonChars bs)
+    | none => "bad-op"
+  | ["cd.ptparse", h] =>
+    match parseText h with
+    | some cs =>
+      match Codec.pointFromJsonChars cs with
+      | some bs => "ok " ++ Bytes.toHexP bs
+      | none => "err"
+    | none => "bad-op"
+  | ["cd.evjson", out, proof] =>
+    match Bytes.ofHex out, parseProof proof with
+    | some out, some proof => "ok " ++ strHex (Codec.evaluationToJsonChars out proof)
+    | _, _ => "bad-op"
+  | ["cd.evparse", h] =>
+    match parseText h with
+    | some cs =>
+      match Codec.evaluationFromJsonChars cs with
+      | some (out, proof) => "ok " ++ strHex (Codec.evaluationToJsonChars out proof)
+      | none => "err"
+    | none => "bad-op"
+  | _ => "bad-op"
+
+def parseUtf8 (s : String) : Option String := (Bytes.ofHex s).bind fun b => String.fromUTF8? ⟨b.toArray⟩
+
+def utf8Hex (s : String) : String := Bytes.toHexP (Bytes.ofString s)
+
+def insertSorted (s : String) : List String → List String
+  | [] => [s]
+  | x :: xs => if s < x then s :: x :: xs else x :: insertSorted s xs
+
+def sortStrings (l : List String) : List String := l.foldr insertSorted []
+
+def showAux : Option Bytes → String
+  | none => "none"
+  | some a => "some:" ++ Bytes.toHexP a
+
+/-- canonical rendering of the server output: one `m=aux,aux` item per output, items sorted -/
+def showOutputs (outs : List (Bytes × List (Option Bytes))) : String :=
+  if outs.isEmpty then "ok -"
+  else "ok " ++ String.intercalate ";" (sortStrings (outs.map fun o =>
+    Bytes.toHexP o.1 ++ "=" ++ String.intercalate "," (o.2.map showAux)))
+
+def handleAgg (toks : List String) : String :=
+  match toks with
+  | ["wasm.create", m, t, e, x] =>
+    match Bytes.ofHex m, t.toNat?, parseUtf8 e, parseFe x with
+    | some m, some t, some e, some x =>
+      match Wasm.createShareOutcome kF fuel m t e x with
+      | none => "fuel"
+      | some (.ok s) => "ok " ++ utf8Hex s
+      | some (.err _) => "err"
+      | some (.panic _) => "panic"
+    | _, _, _, _ => "bad-op"
+  | ["wasm.group", s, e] =>
+    match parseUtf8 s, parseUtf8 e with
+    | some s, some e =>
+      match Wasm.groupShares kF s e with
+      | .ok (some k) => "ok " ++ utf8Hex k
+      | .ok none => "none"
+      | .err _ => "err"
+      | .panic _ => "panic"
+    | _, _ => "bad-op"
+  | "agg.run" :: t :: e :: rest =>
+    match t.toNat?, parseUtf8 e, (match rest with | [] => some [] | [ms] => parseMessages ms | _ => none) with
+    | some t, some e, some ms =>
+      match Agg.retrieveOutputs kF t e ms with
+      | .ok outs => showOutputs outs
+      | .err _ => "err"
+      | .panic _ => "panic"
+    | _, _, _ => "bad-op"
+  | _ => "bad-op"
+
 def handle (toks : List String) : String :=
   match toks with
   | ["keccak", h] =>
@@ -685,6 +837,8 @@ def handle (toks : List String) : String :=
     else if op.startsWith "ris." then handleRistretto toks
     else if op.startsWith "pp." then handlePp toks
     else if op.startsWith "srv." then handleSrv toks
+    else if op.startsWith "cd." then handleCodec toks
+    else if op.startsWith "wasm." ∨ op.startsWith "agg." then handleAgg toks
     else "bad-op"
   | _ => "bad-op"
 
